@@ -103,7 +103,7 @@ fn canaries(ctx: &mut Ctx) {
 fn depth2(ctx: &mut Ctx, stride: usize) {
     let none = Value::None;
     let sp = small_pool();
-    let mut j = |ctx: &mut Ctx, c: Case| judge(ctx, c);
+    let j = |ctx: &mut Ctx, c: Case| judge(ctx, c);
     let mut k = 0usize;
     // unary(binary(a,b)) and binary(unary(a), b)
     for (_, u) in UNARY.iter() {
